@@ -691,7 +691,53 @@ def describe(res):
   return ks
 
 
+def regenerate(ctx):
+  """coq/gen/Trigger_gen.v from the current source (harness/tg2v.py); pinned glue and pinned functions checked."""
+  import os
+  try:
+    text = tg2v_specs.generate(core.GRIST)
+  except tg2v.Untranslatable as e:
+    raise core.TieBroken('the trigger-formula code is outside the translated subset or its pinned glue changed: %s' % e)
+  bad = tg2v_specs.check_pins(core.GRIST)
+  if bad:
+    raise core.TieBroken('pinned functions changed: ' + '; '.join(bad))
+  core.write_if_changed(os.path.join(core.COQ, 'gen', 'Trigger_gen.v'), text)
+  ctx.extra['regenerated'] = {'functions': [s['name'] for s in tg2v_specs.SPECS],
+                              'pinned_glue_statements': sum(len(s.get('glue', {})) + len(s.get('true_tests', {}))
+                                                            for s in tg2v_specs.SPECS),
+                              'pinned_functions': len(tg2v_specs.PINS)}
+
+
+def validate_translator(ctx):
+  """Generated definitions (vm_compute) against the running code: effect traces of real user actions, the pure
+  functions on generated arguments, the trigger edges of real documents."""
+  eff = []
+  for cfg, bundles, results in histories(ctx):
+    for res in results:
+      eff.extend(res.get('effect_cases', ()))
+  docs = 0
+  for cfg in CFGS:
+    doc = Doc(cfg)
+    run_bundle(doc, [gen_first(ctx.rng, {})])
+    eff.append(c15trace.trigger_deps_case(doc))
+    docs += 1
+  pure = c15trace.pure_cases(ctx.rng, ctx.n(40, 400))
+  counts = {'effect_traces': len(eff) - docs, 'trigger_edge_documents': docs}
+  bad = ctx.run_cases('gen_effs', [], '(fun c => effs_eqb (fst c) (snd c))', eff, shard=60, extra_defs=c15trace.DEFS)
+  for i in bad[:3]:
+    ctx.broken('translator:generated effects differ from what the running engine asks for', eff[i][:1500])
+  for kind, check in (('bool', '(fun c => Bool.eqb (fst c) (snd c))'), ('zlist', '(fun c => zlist_eqb (fst c) (snd c))'),
+                      ('action', '(fun c => action_eqb (fst c) (snd c))')):
+    counts['pure_' + kind] = len(pure[kind])
+    bad = ctx.run_cases('gen_' + kind, [], check, pure[kind], shard=200, extra_defs=c15trace.DEFS)
+    for i in bad[:3]:
+      ctx.broken('translator:generated function differs from the running function (%s)' % kind, pure[kind][i][:1500])
+  ctx.extra['translator_validation'] = counts
+  ctx.log('translator validation: %r' % (counts,))
+
+
 def correspond(ctx):
+  validate_translator(ctx)
   cases, keys = [], []
   ctx.extra['source_variant'] = {'repairs_detected_in_source': dict(detect_fixes())}
   if any(detect_fixes().values()):
